@@ -32,7 +32,7 @@ def run(ctx):
 
 def policy(ctx, fb, T):
     R = 'C08.policy'
-    rev = {e['fn']: e['reason'] for e in T.get('allow_overlap_sites', [])}
+    rev = RevTable({e['fn']: e['reason'] for e in T.get('allow_overlap_sites', [])})
     n = 0
     for f, c in callers_of(fb, 're:MutLayout>::from_shape_and_strides$|MutLayout::from_shape_and_strides$'):
         n += 1
